@@ -82,18 +82,20 @@ class NewtonRaphsonGeometry(StandardGeometry, ABC):
         x, y, z = self._intersection_sphere(rays)
         intersections = np.column_stack((x, y, z))
         ray_directions = np.column_stack((rays.L, rays.M, rays.N))
+        # every ray is iterated until ITS OWN residual is below the tolerance
+        # (taking, as a single ray always did, the step of that last
+        # iteration as well) and is then left alone, so that its result does
+        # not depend on which other rays share the batch
+        active = np.ones(intersections.shape[0], dtype=bool)
         for i in range(self.max_iter):
             z_surface = self.sag(intersections[:, 0], intersections[:, 1])
             dz = intersections[:, 2] - z_surface
-            # every ray is iterated until ITS OWN residual is below the
-            # tolerance and then left alone, so that its result does not
-            # depend on which other rays share the batch
-            with np.errstate(invalid='ignore'):
-                active = ~(np.abs(dz) < self.tol)
-            if not active.any():
-                break
             distance = np.where(active, dz / ray_directions[:, 2], 0.0)
             intersections -= distance[:, None] * ray_directions
+            with np.errstate(invalid='ignore'):
+                active &= ~(np.abs(dz) < self.tol)
+            if not active.any():
+                break
         position = np.column_stack((rays.x, rays.y, rays.z))
         t = np.linalg.norm(intersections - position, axis=1)
 
